@@ -113,6 +113,29 @@ def urecStr (r : URec) : String :=
     | some o :: t, j => s!"{j} {o.value} {Hex.encode o.pk}" :: outs t (j + 1)
   " ".intercalate ([s!"ok {Hex.encode r.txid} {r.inBlock} {Proto.boolStr r.coinbase} {r.outs.length}"] ++ outs r.outs 0)
 
+/-- one entry `key8hex:vout` -/
+def parseInp (t : String) : Option Inp :=
+  match t.splitOn ":" with
+  | [k, v] =>
+    match Hex.decode k, v.toNat? with
+    | some k, some v => some (k, v)
+    | _, _ => none
+  | _ => none
+
+/-- `K idx hash n e1 … en` groups: the order in which each record's entries were in the cache file -/
+def parseOrds : Nat → List String → Option (List (AKey × List Inp))
+  | _, [] => some []
+  | 0, _ => none
+  | fuel + 1, "K" :: idx :: h :: n :: rest =>
+    match idx.toNat?, h.toNat?, n.toNat? with
+    | some idx, some h, some n =>
+      if rest.length < n then none else
+      match (rest.take n).mapM parseInp, parseOrds fuel (rest.drop n) with
+      | some l, some more => some (((idx, h), l) :: more)
+      | _, _ => none
+    | _, _, _ => none
+  | _, _ => none
+
 def step1 (s : State) (toks : List String) : State × String :=
   let bad := (s, "bad-op")
   match toks with
@@ -138,6 +161,10 @@ def step1 (s : State) (toks : List String) : State × String :=
     | some mn, some um => (step H s (.enable mn um), "ok")
     | _, _ => bad
   | ["disable"] => (step H s .disable, "ok")
+  | "reload" :: um :: rest =>
+    match um.toNat?, parseOrds rest.length rest with
+    | some um, some ords => (step H s (.reload um ords), "ok")
+    | _, _ => bad
   | ["dump"] => (s, dumpBal s)
   | ["utxo"] => (s, dumpUtxo s)
   | ["getall", idx, payload] =>
